@@ -91,6 +91,7 @@ def run(ctx) -> Result:
     worlds = [[s] for s in range(6)] + [list(p) for p in itertools.product(range(6), repeat=2)] + [[0, 3, 5], [1, 4, 2]]
     per_status_bad = {}
     n_worlds = 0
+    shortcuts = []
     for reps in (0, 1):
         for world in worlds:
             n_worlds += 1
@@ -102,6 +103,11 @@ def run(ctx) -> Result:
                 pivots.append(pp)
             ret, log, err = _eval_where(where, pivots, others, symscheme)
             if len(log) != 3:
+                if err is None and ret in (-1, 0, 1):
+                    # a path that decides without computing the three costs (a shortcut): its decision is what
+                    # matters and V2 / the end-to-end rule decide it; nothing to compare here
+                    shortcuts.append(world)
+                    continue
                 raise AnalysisError(f"{where.qualname}: expected three vdot costs, saw {len(log)}"
                                     + (f" ({err})" if err else ""))
             want = []
